@@ -269,7 +269,8 @@ class SrcModel:
                                 if isinstance(sub, ast.Name):
                                     mod.assigns.setdefault(sub.id, []).append(st)
                 elif isinstance(st, ast.AnnAssign) and isinstance(st.target, ast.Name):
-                    mod.assigns.setdefault(st.target.id, []).append(st)
+                    if st.value is not None:  # a bare annotation `NAME: T` binds nothing
+                        mod.assigns.setdefault(st.target.id, []).append(st)
                 elif isinstance(st, ast.If):
                     index_body(st.body)
                     index_body(st.orelse)
